@@ -416,7 +416,7 @@ def run(ctx: Ctx) -> None:
     sub = Ctx(ctx.prog, ctx.prop, ctx.tier)
     _loglogit_value(sub)
     for o in sub.obligations:
-        ctx.add('C05.R4', o.construct, o.ok, (o.file, o.line), o.message, o.detail)
+        ctx.adopt('C05.R4', o)
     # the logit kernel receives, for every alternative, its own utility and its own availability (record of the logit classes)
     from . import c01
 
@@ -426,7 +426,7 @@ def run(ctx: Ctx) -> None:
     for o in sub1.obligations:
         if ('LogLogit' in o.construct) and o.rule in ('C01.R2', 'C01.R3', 'C01.R4'):
             n_rec += 1
-            ctx.add('C05.R6', o.construct, o.ok, (o.file, o.line), o.message, o.detail)
+            ctx.adopt('C05.R6', o)
     if n_rec < 10:
         raise AnalysisError(f'C05.R6: only {n_rec} record obligations of the logit classes found')
     ordered_rule(ctx, 'C05.R5')
